@@ -156,6 +156,40 @@ theorem C11_outer_noninterference (E : AEAD) {A : Ctx} {seq : Nat} {rid : Option
     · rw [hc1] at hc2; cases hc2
     · rw [hk1] at hk2; cases hk2; simp [hs1, hs2, hr1, hr2]
 
+/-- **Inner data only enters as AEAD plaintext.**  From the same context state, the
+ciphertexts of any two messages are encryptions under the same key, the same nonce and the same
+AAD (built from the context, the sequence number and the request identifiers only); code,
+class-E options and payload occur in the AEAD plaintext and nowhere else. -/
+theorem C11_inner_only_in_plaintext (E : AEAD) {A : Ctx} {seq : Nat} {rid : Option ReqId}
+    {m1 m2 : Msg} {P1 P2 : Protected}
+    (h1 : protect E A seq m1 rid = .ok P1) (h2 : protect E A seq m2 rid = .ok P2) :
+    ∃ nonce pt1 pt2,
+      buildPlaintext m1.code (innerOpts m1) m1.payload = some pt1 ∧
+      buildPlaintext m2.code (innerOpts m2) m2.payload = some pt2 ∧
+      P1.outer.payload = E.enc A.senderKey nonce (aad A.algValue P1.rid.kid P1.rid.piv) pt1 ∧
+      P2.outer.payload = E.enc A.senderKey nonce (aad A.algValue P1.rid.kid P1.rid.piv) pt2 := by
+  cases rid with
+  | none =>
+    obtain ⟨_, _, _, pt1, n1, _, hp1, hn1, _, hP1⟩ := protect_request_shape h1
+    obtain ⟨_, _, _, pt2, n2, _, hp2, hn2, _, hP2⟩ := protect_request_shape h2
+    rw [hn1] at hn2; cases hn2
+    subst hP1; subst hP2
+    exact ⟨n1, pt1, pt2, hp1, hp2, rfl, rfl⟩
+  | some r =>
+    obtain ⟨hr1, _, pt1, n1, _, hp1, hm1, hP1⟩ := protect_response_shape h1
+    obtain ⟨hr2, _, pt2, n2, _, hp2, hm2, hP2⟩ := protect_response_shape h2
+    have hi1 : innerOpts m1 = m1.opts := by simp [innerOpts, hr1]
+    have hi2 : innerOpts m2 = m2.opts := by simp [innerOpts, hr2]
+    rw [hi1, hi2, hP1, hP2]
+    rcases hm1 with ⟨hc1, hn1, _, _, hq1⟩ | ⟨hc1, _, hn1, _, _, hq1⟩ <;>
+      rcases hm2 with ⟨hc2, hn2, _⟩ | ⟨hc2, _, hn2, _⟩
+    · rw [hn1] at hn2; cases hn2
+      exact ⟨n1, pt1, pt2, hp1, hp2, by rw [hq1], by rw [hq1]⟩
+    · rw [hc1] at hc2; cases hc2
+    · rw [hc1] at hc2; cases hc2
+    · rw [hn1] at hn2; cases hn2
+      exact ⟨n1, pt1, pt2, hp1, hp2, by rw [hq1], by rw [hq1]⟩
+
 -- ## Responses are bound to their request ----------------------------------------------------------
 
 /-- **Response binding.**  A protected response verifies only together with the identifiers
